@@ -1,4 +1,5 @@
 SPECIFICATION TSpec
 INVARIANT C20_NameOrder
+INVARIANT C20_MacroNamesPerDatum
 INVARIANT C20_ColoursAgree
 CHECK_DEADLOCK FALSE
